@@ -83,6 +83,7 @@ TOTAL_CALLS = {
     "std::string::String::len",
     "std::ops::Try::branch",
     "std::ops::FromResidual::from_residual",
+    "std::ops::Try::from_output",
     "std::result::Result::map_err",
     "std::result::Result::map",
     "std::result::Result::ok",
@@ -910,6 +911,14 @@ class FnRun:
                     outs.append((nxt, s2, None))
             return outs
         exp = t.get("fn_exp") or ""
+        # the expansion of a tracing event (trace!/debug!/info!/warn!/error!): level filtering, the
+        # call-site registry and the dispatch to the subscriber — logging is trusted not to panic
+        # (the same trust N3 and the rest of the rules place in it)
+        exp_all = exp + ">" + (t.get("exp") or "")
+        if "macro:$crate::event" in exp_all or "macro:tracing::" in exp_all or any(("macro:%s" % m) in exp_all or ("macro:$crate::%s" % m) in exp_all for m in ("trace", "debug", "info", "warn", "error", "event", "level_enabled", "valueset", "fieldset", "callsite", "enabled")):
+            for a in args:
+                self._run_closure_arg(st, a, site)
+            return ret(self._total_result(st, t, cn, args, site))
         ip.oblige(b, bb, "call", "call %s cannot panic" % (cn or rn or "<indirect>"), False, st, fr, "the callee is neither crate-local, nor modelled, nor in the table of total functions: it may panic (e.g. unwrap/expect/index)")
         return ret(TOP)
 
@@ -1203,16 +1212,27 @@ def m_with_capacity(run, bb, st, t, args, ret, site):
     return ret(TOP)
 
 
+def _tracing_expansion(t):
+    e = (t.get("fn_exp") or "") + ">" + (t.get("exp") or "")
+    return "macro:$crate::valueset" in e or "macro:$crate::event" in e or "macro:tracing::" in e or "macro:$crate::fieldset" in e
+
+
 def m_unwrap(run, bb, st, t, args, ret, site):
     ip = run.ip
     v = args[0] if args else TOP
     ok = v[0] == "tag" and v[2] in ("Some", "Ok")
     cn = _cn(t)[0] or ""
+    if _tracing_expansion(t):
+        # `expect("FieldSet corrupted …")` inside trace!/debug!: tracing's own invariant
+        return ret(v[3].get("0", TOP) if v[0] == "tag" else TOP)
     ip.oblige(run.body, bb, "pre", "%s on a value proved Some/Ok" % cn.split("::")[-1], ok, st, run.frame, "the value may be None/Err: this panics on some input")
     return ret(v[3].get("0", TOP) if v[0] == "tag" else TOP)
 
 
 def m_panic(run, bb, st, t, args, ret, site):
+    if "macro:debug_assert" in (t.get("fn_exp") or "") + (t.get("exp") or ""):
+        # a debug assertion: not part of the shipped configuration (see N3)
+        return []
     run.ip.oblige(run.body, bb, "pre", "explicit panic unreachable", False, st, run.frame, "a panicking call is reachable")
     return []
 
